@@ -44,6 +44,8 @@ type c11RunRec struct {
 	genPtrs []*C11State
 	ptrs    []*C11State
 	nodes   map[string]*c11NodeObs
+	rerun   map[string]bool
+	eager   *c11EagerCtl
 }
 
 func c11Rec(ctx context.Context) *c11RunRec {
@@ -207,6 +209,22 @@ func c11HandlerOpts(f c11Flat, keyed bool) []compose.GraphAddNodeOpt {
 func c11Body(ctx context.Context, f c11Flat, in string) (string, error) {
 	rr := c11Rec(ctx)
 	no := rr.nodes[f.Path]
+	if f.Node.Rerun {
+		rr.mu.Lock()
+		first := !rr.rerun[f.Path]
+		if rr.rerun == nil {
+			rr.rerun = map[string]bool{}
+		}
+		rr.rerun[f.Path] = true
+		rr.mu.Unlock()
+		if first {
+			no.RerunN++
+			return "", compose.InterruptAndRerun
+		}
+	}
+	if rr.eager != nil {
+		return c11EagerBody(ctx, f, in)
+	}
 	no.BodyN++
 	no.BodyIn = c11P(in)
 	// probe: which state object do the nodes of this graph see
@@ -309,6 +327,12 @@ func c11Build(l *c11Layout, gi int, ctrs int) (*c11Built, error) {
 		return nil, errors.New("sub-graph not found")
 	}
 	b := &c11Built{}
+	if len(spec.Before) > 0 {
+		b.opts = append(b.opts, compose.WithInterruptBeforeNodes(spec.Before))
+	}
+	if len(spec.After) > 0 {
+		b.opts = append(b.opts, compose.WithInterruptAfterNodes(spec.After))
+	}
 	last := spec.Nodes[len(spec.Nodes)-1].Key
 	if spec.Mode == "workflow" {
 		wf := compose.NewWorkflow[string, string](gopts...)
@@ -515,6 +539,9 @@ func c11RunCase(idx int, c *c11Case) *c11CaseObs {
 		return o
 	}
 	c11RegOnce.Do(func() { compose.RegisterSerializableType[C11State]("verif_c11_state") })
+	if c.Kind == "resume" || c.Kind == "eager" {
+		return c11ResumeRunCase(idx, c)
+	}
 	l := c11LayoutOf(&c.G)
 	var r compose.Runnable[string, string]
 	var err error
